@@ -17,6 +17,8 @@ RULES = client_table.TABLE_RULES + [
     Rule('R3:transport_pin_mut', r'self\s*\.transport_pin_mut\(\)', 'self.transport', flags=re.M | re.S, why='accessor = projection of field transport'),
     Rule('R3:in_flight_requests', r'self\s*\.in_flight_requests\(\)', 'self.in_flight_requests', flags=re.M | re.S, why='accessor = projection of field in_flight_requests'),
     Rule('R3:pending_requests_mut', r'self\s*\.pending_requests_mut\(\)', 'self.pending_requests', flags=re.M | re.S, why='accessor = projection of field pending_requests'),
+    Rule('R3:terminal_error_mut-assign', r'\*self\s*\.terminal_error_mut\(\)', 'self.terminal_error', flags=re.M | re.S, why='accessor = projection of field terminal_error'),
+    Rule('R3:terminal_error_mut', r'self\s*\.terminal_error_mut\(\)', '(&mut self.terminal_error)', flags=re.M | re.S, why='accessor = projection of field terminal_error'),
     Rule('R3:canceled_requests_mut', r'self\s*\.canceled_requests_mut\(\)', 'self.canceled_requests', flags=re.M | re.S, why='accessor = projection of field canceled_requests'),
     Rule('R7:poll_next_unpin', r'\.poll_next_unpin\(cx\)', '.poll_next(cx)', why='StreamExt::poll_next_unpin = Pin::new(self).poll_next'),
     # R5 type substitutions
@@ -73,6 +75,15 @@ impl<E> ChannelError<E> {
     /// `impl Clone for ChannelError` (clones the Arc): same value
     #[verifier::external_body]
     pub fn clone(&self) -> (r: Self) ensures r == *self { unimplemented!() }
+    /// `upcast_error` / `upcast_any` / `downcast`: change only the (erased) type of the source error; the activity
+    /// variant and the Arc are kept. `downcast` of what `poll` itself stored always succeeds (A-downcast: the
+    /// field is only populated by RequestDispatch::poll with a C::Error).
+    #[verifier::external_body]
+    pub fn upcast_error(self) -> (r: Self) ensures r == self { unimplemented!() }
+    #[verifier::external_body]
+    pub fn upcast_any(self) -> (r: Self) ensures r == self { unimplemented!() }
+    #[verifier::external_body]
+    pub fn downcast(self) -> (r: Result<Self, Self>) ensures r == Ok::<Self, Self>(self) { unimplemented!() }
 }
 impl<Res> InFlightRequests<Result<Res, RpcError>> {
     /// ASSUMED (R11; bounded stand-in only): `complete_all_requests(|| Err(RpcError::Channel(e)))` consumed to the
@@ -116,7 +127,7 @@ IMPL_VOCAB = Raw('''
     /// everything except the transport is unchanged
     pub open spec fn frame_tr(&self, o: &Self) -> bool {
         &&& self.in_flight_requests == o.in_flight_requests && self.pending_requests == o.pending_requests
-        &&& self.canceled_requests == o.canceled_requests && self.config == o.config
+        &&& self.canceled_requests == o.canceled_requests && self.config == o.config && self.terminal_error == o.terminal_error
     }
     /// read-side and bookkeeping fields of the transport unchanged
     pub open spec fn tr_read_same(&self, o: &Self) -> bool {
@@ -141,14 +152,14 @@ WRAP_FRAME = 'final(self).frame_tr(old(self)) && final(self).tr_read_same(old(se
 def dispatch_parts():
     F = lambda name, **kw: Fn(SRC, IMPL, name, **kw)
     return [
-        TypeItem(LIB, 'enum', 'ChannelError', rules=TYPE_RULES),
+        TypeItem(LIB, 'enum', 'ChannelError', rules=TYPE_RULES, attrs='#[derive(Debug)]'),
         TypeItem(SRC, 'enum', 'RpcError'),
         TypeItem(LIB, 'struct', 'Request', rules=[]),
         TypeItem(LIB, 'enum', 'ClientMessage'),
         TypeItem(LIB, 'struct', 'Response'),
         TypeItem(SRC, 'struct', 'Config'),
         TypeItem(SRC, 'struct', 'DispatchRequest'),
-        TypeItem(SRC, 'struct', 'RequestDispatch', drop_fields=['terminal_error']),
+        TypeItem(SRC, 'struct', 'RequestDispatch', rules=[Rule('R5:any-error', r"ChannelError<dyn Any \+ Send \+ Sync \+ 'static>", 'ChannelError<TErr>', 1, why='type-erased error object is opaque (same model type)')]),
         VOCAB,
         Impl('impl<Req, Resp> RequestDispatch<Req, Resp>', fx_type=FXT, parts=[
             IMPL_VOCAB,
@@ -188,7 +199,7 @@ def dispatch_parts():
               requires='old(self).inv(), // @core',
               ensures='''
                 final(self).inv(), // @core
-                final(self).transport == old(self).transport && final(self).pending_requests == old(self).pending_requests && final(self).canceled_requests == old(self).canceled_requests && final(self).config == old(self).config, // @core
+                final(self).transport == old(self).transport && final(self).pending_requests == old(self).pending_requests && final(self).canceled_requests == old(self).canceled_requests && final(self).config == old(self).config && final(self).terminal_error == old(self).terminal_error, // @core
                 final(self).in_flight_requests@ =~= old(self).in_flight_requests@.remove(response.request_id), // @C01,C11
                 r == old(self).in_flight_requests@.contains_key(response.request_id), // @C01
                 old(self).in_flight_requests@.contains_key(response.request_id) ==> final(fx).log == old(fx).log.push(Effect::Deliver { chan: old(self).in_flight_requests@[response.request_id].chan, value: deliverable(response.message) }), // @C01
@@ -201,7 +212,7 @@ def dispatch_parts():
                           requires='old(self).inv(), // @core',
                           ensures='''
                             final(self).inv(), // @core
-                            final(self).transport == old(self).transport && final(self).pending_requests == old(self).pending_requests && final(self).canceled_requests == old(self).canceled_requests && final(self).config == old(self).config, // @core
+                            final(self).transport == old(self).transport && final(self).pending_requests == old(self).pending_requests && final(self).canceled_requests == old(self).canceled_requests && final(self).config == old(self).config && final(self).terminal_error == old(self).terminal_error, // @core
                             final(self).in_flight_requests@ =~= old(self).in_flight_requests@.remove(response.request_id), // @C01,C11
                             old(self).in_flight_requests@.contains_key(response.request_id) ==> final(fx).log == old(fx).log.push(Effect::Deliver { chan: old(self).in_flight_requests@[response.request_id].chan, value: deliverable(response.message) }), // @C01
                             !old(self).in_flight_requests@.contains_key(response.request_id) ==> final(fx).log == old(fx).log, // @C01,C16
@@ -209,6 +220,7 @@ def dispatch_parts():
               requires='old(self).inv(), // @core',
               ensures='''
                 final(self).inv(), // @core
+                final(self).terminal_error == old(self).terminal_error, // @core
                 final(self).tr_write_same(old(self)) && final(self).pending_requests == old(self).pending_requests && final(self).canceled_requests == old(self).canceled_requests && final(self).config == old(self).config, // @core
                 r matches Poll::Ready(Some(Ok(()))) ==> exists|resp: Response<Resp>| final(self).in_flight_requests@ =~= old(self).in_flight_requests@.remove(resp.request_id)
                     && (old(self).in_flight_requests@.contains_key(resp.request_id) ==> final(fx).log == old(fx).log.push(Effect::Deliver { chan: old(self).in_flight_requests@[resp.request_id].chan, value: deliverable(resp.message) }))
@@ -237,7 +249,7 @@ def dispatch_parts():
             F('poll_next_request', tags='C03,C11,C14', attrs='#[verifier::exec_allows_no_decreases_clause]',
               requires='old(self).inv(), // @core',
               ensures='''
-                final(self).in_flight_requests == old(self).in_flight_requests && final(self).canceled_requests == old(self).canceled_requests && final(self).config == old(self).config && final(self).tr_read_same(old(self)), // @core
+                final(self).in_flight_requests == old(self).in_flight_requests && final(self).canceled_requests == old(self).canceled_requests && final(self).config == old(self).config && final(self).tr_read_same(old(self)) && final(self).terminal_error == old(self).terminal_error, // @core
                 final(self).transport@.sent == old(self).transport@.sent && final(self).transport@.closed == old(self).transport@.closed, // @core
                 old(self).pending_requests@.taken.subset_of(final(self).pending_requests@.taken), // @core
                 old(self).pending_requests@.drained ==> final(self).pending_requests@.drained, // @core
@@ -252,7 +264,7 @@ def dispatch_parts():
               loops=['''
                 invariant
                     self.transport@.ready && !self.transport@.failed, // @core
-                    self.in_flight_requests == old(self).in_flight_requests && self.canceled_requests == old(self).canceled_requests && self.config == old(self).config && self.tr_read_same(old(self)), // @core
+                    self.in_flight_requests == old(self).in_flight_requests && self.canceled_requests == old(self).canceled_requests && self.config == old(self).config && self.tr_read_same(old(self)) && self.terminal_error == old(self).terminal_error, // @core
                     self.transport@.sent == old(self).transport@.sent && self.transport@.closed == old(self).transport@.closed, // @core
                     old(self).pending_requests@.taken.subset_of(self.pending_requests@.taken), // @core
                     old(self).pending_requests@.drained ==> self.pending_requests@.drained, // @core
@@ -262,7 +274,8 @@ def dispatch_parts():
             F('poll_next_cancellation', tags='C03', attrs='#[verifier::exec_allows_no_decreases_clause]',
               requires='old(self).inv(), // @core',
               ensures='''
-                final(self).pending_requests == old(self).pending_requests && final(self).config == old(self).config && final(self).tr_read_same(old(self)), // @core
+                final(self).pending_requests == old(self).pending_requests && final(self).config == old(self).config && final(self).tr_read_same(old(self)) && final(self).terminal_error == old(self).terminal_error, // @core
+                final(self).in_flight_requests.wf(), // @core
                 final(self).transport@.sent == old(self).transport@.sent && final(self).transport@.closed == old(self).transport@.closed, // @core
                 sub(final(self).in_flight_requests@, old(self).in_flight_requests@), // @C01,C03
                 old(self).canceled_requests@.drained ==> final(self).canceled_requests@.drained, // @core
@@ -279,7 +292,7 @@ def dispatch_parts():
               loops=['''
                 invariant
                     self.transport@.ready && !self.transport@.failed, // @core
-                    self.pending_requests == old(self).pending_requests && self.config == old(self).config && self.tr_read_same(old(self)), // @core
+                    self.pending_requests == old(self).pending_requests && self.config == old(self).config && self.tr_read_same(old(self)) && self.terminal_error == old(self).terminal_error, // @core
                     self.transport@.sent == old(self).transport@.sent && self.transport@.closed == old(self).transport@.closed, // @core
                     self.table_same(old(self)), // @C03
                     old(self).canceled_requests@.drained ==> self.canceled_requests@.drained, // @core
@@ -288,7 +301,8 @@ def dispatch_parts():
             F('poll_write_request', fx=True, tags='C01,C03,C09,C14,C16',
               requires='old(self).inv(), // @core',
               ensures='''
-                final(self).canceled_requests == old(self).canceled_requests && final(self).config == old(self).config && final(self).tr_read_same(old(self)), // @core
+                final(self).canceled_requests == old(self).canceled_requests && final(self).config == old(self).config && final(self).tr_read_same(old(self)) && final(self).terminal_error == old(self).terminal_error, // @core
+                final(self).in_flight_requests.wf(), // @core
                 final(self).transport@.closed == old(self).transport@.closed, // @core
                 old(self).pending_requests@.drained ==> final(self).pending_requests@.drained, // @core
                 !(r matches Poll::Ready(Some(Err(_)))) ==> final(self).inv(), // @core
@@ -332,7 +346,8 @@ def dispatch_parts():
             F('poll_write_cancel', tags='C03,C09,C14,C18',
               requires='old(self).inv(), // @core',
               ensures='''
-                final(self).pending_requests == old(self).pending_requests && final(self).config == old(self).config && final(self).tr_read_same(old(self)), // @core
+                final(self).pending_requests == old(self).pending_requests && final(self).config == old(self).config && final(self).tr_read_same(old(self)) && final(self).terminal_error == old(self).terminal_error, // @core
+                final(self).in_flight_requests.wf(), // @core
                 final(self).transport@.closed == old(self).transport@.closed, // @core
                 sub(final(self).in_flight_requests@, old(self).in_flight_requests@), // @C01,C03
                 old(self).canceled_requests@.drained ==> final(self).canceled_requests@.drained, // @core
@@ -350,7 +365,8 @@ def dispatch_parts():
             F('pump_write', fx=True, tags='C09,C10,C14', hoist=[('enum', 'ReceiverStatus')],
               requires='old(self).inv(), // @core',
               ensures='''
-                final(self).config == old(self).config && final(self).tr_read_same(old(self)), // @core
+                final(self).config == old(self).config && final(self).tr_read_same(old(self)) && final(self).terminal_error == old(self).terminal_error, // @core
+                final(self).in_flight_requests.wf(), // @core
                 old(self).pending_requests@.drained ==> final(self).pending_requests@.drained, // @core
                 old(self).canceled_requests@.drained ==> final(self).canceled_requests@.drained, // @core
                 !(r matches Poll::Ready(Some(Err(_)))) ==> final(self).inv(), // @core
@@ -377,7 +393,7 @@ def dispatch_parts():
               ''',
               ensures='''
                 // C14/C09: the transport is not touched again after the failure that led here
-                final(self).transport == old(self).transport && final(self).canceled_requests == old(self).canceled_requests && final(self).config == old(self).config, // @C09,C14
+                final(self).transport == old(self).transport && final(self).canceled_requests == old(self).canceled_requests && final(self).config == old(self).config && final(self).terminal_error == old(self).terminal_error && final(self).in_flight_requests.wf(), // @C09,C14
                 // C09: only connection errors are delivered -- no call reports success without a reply
                 channel_errors_only(old(fx).log, final(fx).log), // @C09
                 // C09: when it completes, the request queue is closed and drained and nothing is in flight: every outstanding call was failed
@@ -396,7 +412,7 @@ def dispatch_parts():
               ],
               loops=['''
                 invariant
-                    self.transport == old(self).transport && self.canceled_requests == old(self).canceled_requests && self.config == old(self).config, // @core
+                    self.transport == old(self).transport && self.canceled_requests == old(self).canceled_requests && self.config == old(self).config && self.terminal_error == old(self).terminal_error && self.in_flight_requests.wf(), // @core
                     // C09: every queued caller with an open receiver has been delivered the error (one delivery per such dequeue)
                     fx.log.len() == g_base + g_open, // @C09
                     self.pending_requests@.closed_by_rx, // @C09
@@ -406,6 +422,7 @@ def dispatch_parts():
             F('run', fx=True, tags='C09,C10', attrs='#[verifier::exec_allows_no_decreases_clause]',
               requires='old(self).inv(), // @core',
               ensures='''
+                final(self).in_flight_requests.wf() && final(self).terminal_error == old(self).terminal_error, // @core
                 r matches Poll::Ready(Ok(())) ==> final(self).transport@.read_done
                     || (final(self).pending_requests@.drained && final(self).canceled_requests@.drained && final(self).transport@.closed && final(self).transport@.unflushed == 0 && final(self).in_flight_requests@.dom().len() == 0), // @C10
                 r matches Poll::Ready(Err(e)) ==> e is Read || e is Write || (final(self).transport@.failed && (e is Ready || e is Flush || e is Close)), // @C09
@@ -417,7 +434,34 @@ def dispatch_parts():
               loops=['''
                 invariant
                     self.inv(), // @core
+                    self.terminal_error == old(self).terminal_error, // @core
               ''']),
+            Fn(SRC, r'impl<Req, Resp, C> Future for RequestDispatch<Req, Resp, C> where C: Transport<ClientMessage<Req>, Response<Resp>>,', 'poll', fx=True, tags='C09,C10',
+               rules=[
+                   Rule('R5:chain-one-line', r'= e\s*(\.clone\(\))?\s*\.downcast\(\)\s*\.expect\(', r'= e\1.downcast().expect(', '*', where='body', flags=re.M | re.S, why='(whitespace only)'),
+               ],
+               requires='''
+                 old(self).terminal_error is None ==> old(self).inv(), // @core
+                 old(self).in_flight_requests.wf(), // @core
+               ''',
+               ensures='''
+                 // C09: once a transport failure was recorded the dispatch never goes back to using the transport: it stays in
+                 // the shutdown state (the recorded error is kept) until it has failed every outstanding call and returns it
+                 r is Pending ==> (final(self).terminal_error is None ==> final(self).inv()) && final(self).in_flight_requests.wf(), // @C09
+                 r is Pending && old(self).terminal_error is Some ==> final(self).terminal_error == old(self).terminal_error, // @C09
+                 // C09: every outstanding call was failed before the error is returned
+                 r matches Poll::Ready(Err(e)) ==> final(self).pending_requests@.drained && final(self).in_flight_requests@.dom().len() == 0, // @C09
+                 r matches Poll::Ready(Err(e)) ==> (old(self).terminal_error matches Some(t) && e == t) || e is Read || e is Write || (final(self).transport@.failed && (e is Ready || e is Flush || e is Close)), // @C09
+                 r matches Poll::Ready(Ok(())) ==> final(self).transport@.read_done
+                     || (final(self).pending_requests@.drained && final(self).canceled_requests@.drained && final(self).transport@.closed && final(self).in_flight_requests@.dom().len() == 0), // @C10
+               ''',
+               loops=['''
+                 invariant
+                     self.terminal_error is None ==> self.inv(), // @core
+                     self.in_flight_requests.wf(), // @core
+                     old(self).terminal_error is Some ==> self.terminal_error == old(self).terminal_error, // @C09
+                     old(self).terminal_error is None ==> (self.terminal_error matches Some(t) ==> t is Read || t is Write || (self.transport@.failed && (t is Ready || t is Flush || t is Close))), // @C09
+               ''']),
         ]),
     ]
 
@@ -505,6 +549,6 @@ ACCESSOR_GUARDS = [
 def unit():
     return Unit('client', prelude=['base.rs', 'time.rs', 'delay_queue.rs', 'oneshot_tx.rs', 'trace_models.rs', 'transport.rs', 'server_error.rs', 'client_queues.rs', 'cancellations.rs', 'client_guard.rs', 'client_call.rs'],
                 parts=client_table.parts() + dispatch_parts() + guard_parts() + call_parts(), rules=RULES,
-                fx_fns=client_table.FX_CALLS + [r'\.complete\(', r'self\.pump_read__closure\(', r'\.pump_read\(', r'\.pump_write\(', r'\.poll_write_request\(', r'\.shut_down_with_terminal_error\(', r'\.poll_expired\((?=cx, \|\|)'],
+                fx_fns=client_table.FX_CALLS + [r'\.complete\(', r'self\.pump_read__closure\(', r'\.pump_read\(', r'\.pump_write\(', r'\.poll_write_request\(', r'\.shut_down_with_terminal_error\(', r'self\.run\(', r'\.poll_expired\((?=cx, \|\|)'],
                 fx_prims=[r'response_completion\.send\(', r'self\.response\.close\(', r'self\.cancellation\.cancel\(', r'response_guard\.response\(', r'self\.to_dispatch\.send\('], fx_type='Fx<Res>',
                 accessor_guards=[(SRC, IMPL, n, rx) for n, rx in ACCESSOR_GUARDS])
